@@ -229,6 +229,10 @@ func (in *Interp) intrinsic(fn *ssa.Function, args []Value) (Value, bool) {
 		dst := args[0].(SliceVal)
 		// append s to dst using the append builtin semantics
 		return in.appendBytes(dst, []byte(s)), true
+	case "fmt.Sprintf", "fmt.Errorf", "fmt.Sprint", "fmt.Sprintln":
+		return in.fmtNative(name, args), true
+	case "fmt.Printf", "fmt.Println", "fmt.Print", "fmt.Fprintf", "fmt.Fprintln", "fmt.Fprint", "(*log.Logger).Println", "(*log.Logger).Printf", "(*log.Logger).Print", "log.Println", "log.Printf":
+		return zeroRet(fn), true
 	case "sort.Slice", "sort.SliceStable":
 		// reflection-free model: stable insertion sort driven by the less closure
 		iv, _ := args[0].(IfaceVal)
@@ -424,4 +428,109 @@ func (in *Interp) vIntrinsic(base string, fn *ssa.Function, args []Value) (Value
 		return nil, true
 	}
 	return nil, false
+}
+
+// goValue converts a concrete engine value to a native Go value for fmt; ok=false if symbolic/unsupported.
+func (in *Interp) goValue(v Value, t types.Type) (interface{}, bool) {
+	switch x := v.(type) {
+	case *Term:
+		if !x.IsConst() {
+			return nil, false
+		}
+		if x.W == 0 {
+			return x.Bool(), true
+		}
+		if t != nil {
+			if _, signed, ok := intWidth(t); ok && !signed {
+				if x.W == 8 {
+					return byte(x.C), true
+				}
+				return x.C, true
+			}
+			if b, ok := t.Underlying().(*types.Basic); ok && b.Kind() == types.Int32 {
+				return rune(x.Signed()), true
+			}
+		}
+		return x.Signed(), true
+	case StrVal:
+		b, ok := termsConcrete(x.B)
+		return string(b), ok
+	case float64:
+		return x, true
+	case SliceVal:
+		if t != nil && isByteSlice(t) {
+			if x.Arr == nil {
+				return []byte(nil), true
+			}
+			b, ok := in.sliceConcrete(x)
+			return b, ok
+		}
+	case IfaceVal:
+		if x.T == nil {
+			return nil, true
+		}
+		// error / Stringer
+		for _, mn := range []string{"Error", "String"} {
+			sel := in.prog.MethodSets.MethodSet(x.T).Lookup(nil, mn)
+			if sel == nil {
+				continue
+			}
+			if m := in.prog.MethodValue(sel); m != nil && m.Signature.Params().Len() == 0 && m.Signature.Results().Len() == 1 && isString(m.Signature.Results().At(0).Type()) {
+				r := in.call(m, []Value{x.V})
+				if sv, ok := r.(StrVal); ok {
+					b, ok := termsConcrete(sv.B)
+					return fmtStringer(string(b)), ok
+				}
+			}
+		}
+		return in.goValue(x.V, x.T)
+	case NilPtr:
+		return nil, true
+	}
+	return nil, false
+}
+
+type fmtStringer string
+
+func (s fmtStringer) String() string { return string(s) }
+func (s fmtStringer) Error() string  { return string(s) }
+
+func (in *Interp) fmtNative(name string, args []Value) Value {
+	var format string
+	var rest SliceVal
+	if name == "fmt.Sprintf" || name == "fmt.Errorf" {
+		b, ok := termsConcrete(args[0].(StrVal).B)
+		if !ok {
+			in.end("unsupported", name+" with symbolic format")
+		}
+		format = string(b)
+		rest, _ = args[1].(SliceVal)
+	} else {
+		rest, _ = args[0].(SliceVal)
+	}
+	var gargs []interface{}
+	okAll := true
+	for i := 0; i < rest.Len; i++ {
+		iv, _ := in.load(rest.Arr.E[rest.Off+i]).(IfaceVal)
+		g, ok := in.goValue(iv, nil)
+		if !ok {
+			okAll = false
+			g = "<symbolic>"
+		}
+		gargs = append(gargs, g)
+	}
+	_ = okAll
+	var out string
+	switch name {
+	case "fmt.Sprintf", "fmt.Errorf":
+		out = fmt.Sprintf(strings.ReplaceAll(format, "%w", "%v"), gargs...)
+	case "fmt.Sprint":
+		out = fmt.Sprint(gargs...)
+	default:
+		out = fmt.Sprintln(gargs...)
+	}
+	if name == "fmt.Errorf" {
+		return in.errorValue(out)
+	}
+	return strFromGo(out)
 }
